@@ -255,6 +255,49 @@ fn main() {
         let cs: &[C] = if d.n <= 3 || th || name.starts_with("table") { &[C::Z2, C::Z3, C::F2H, C::F3H, C::QH] } else { &[C::Z2, C::F2H] };
         check_ss(&run, name, d, cs, &moves);
     });
+    // ---- diagrams that still list a smoothed crossing ---------------------------------------------------
+    // `Link::resolved_at(c, bit)` keeps the smoothed crossing in the link data; the same diagram without
+    // it has the PD code `smoothed_pd`.  For every diagram of the families (knots and links), every
+    // crossing and its orientation-preserving smoothing such that the result is a knot: the s-invariants of the two
+    // presentations agree (c = 2 over Z and c = H over F2[H], reduced and unreduced) and the
+    // presentation with the smoothed crossing has non-zero canonical cycles.
+    {
+        let mut fam2 = planar_family(if th { 4 } else { 3 });
+        fam2.extend(braid_family(&[(2, 5), (3, 3)]));
+        let jobs: Vec<(usize, usize, bool)> = fam2.iter().enumerate().flat_map(|(i, (_, d))| (0..d.n).flat_map(move |c| [(i, c, false), (i, c, true)])).collect();
+        run.par_for(jobs.len(), |j| {
+            if run.over_budget() {
+                run.cap("wall budget reached in the smoothed-crossing part");
+                return;
+            }
+            let (i, c, bit) = jobs[j];
+            let (name, d) = &fam2[i];
+            // only the orientation-preserving smoothing (bit 0 at a positive, bit 1 at a negative crossing):
+            // after the other one the remaining PD data are not oriented consistently any more, the
+            // signs of the remaining crossings - hence the degree shift - are not defined
+            if bit != (d.sign(c) < 0) {
+                return;
+            }
+            let Some(code) = smoothed_pd(d, c, bit) else { return };
+            let Some((d2, _)) = Diagram::from_pd(&code) else { return };
+            if !is_knot(&d2) {
+                return;
+            }
+            run.add("smoothed_presentations", 1);
+            let l1 = to_link(d).resolved_at(c, if bit { yui::bitseq::Bit::Bit1 } else { yui::bitseq::Bit::Bit0 });
+            let l2 = yui_link::Link::from_pd_code(code.clone());
+            let key = format!("ss:smoothed:{name}:{}:c{c}:b{}", code_string(d), bit as u8);
+            for cc in [C::Z2, C::F2H] {
+                for reduced in [false, true] {
+                    run.add("evaluations", 2);
+                    match (ss_link(&l1, cc, reduced), ss_link(&l2, cc, reduced)) {
+                        (Ok(a), Ok(b)) if a == b => {}
+                        (a, b) => run.fail(&format!("{key}:{cc:?}:red={}", reduced as u8), &format!("ss of the diagram with the smoothed crossing still listed = {a:?}, of the same diagram without it = {b:?}"), json!({"pd": d.pd(), "crossing": c, "bit": bit, "smoothed_pd": code})),
+                    }
+                }
+            }
+        });
+    }
     // braid-level moves for the s-invariant (R2, R3, Markov)
     let mut words: Vec<(usize, Vec<i32>)> = vec![];
     for &(s, ml) in &(if th { vec![(2usize, 5usize), (3, 5), (4, 4)] } else { vec![(2, 3), (3, 4)] }) {
@@ -282,6 +325,7 @@ fn main() {
         "distinct_nontrivial": run.get("links") + run.get("knots"),
         "rule": "all planar diagrams with <= 3 (thorough 4) crossings + braid closures (+ for the knot part every table knot with <= 8 (thorough 10) crossings and its mirror, twice each): Lee homology rank for every link; for every 1-component diagram: canonical cycles (degree 0, cycles, non-torsion for h != 0; h in {0,1,2,3} over Z, h = H over Q[H], F2[H], h = 1 over F3; reduced and unreduced) and the s-type invariant for c in {2,3} over Z and c = H over F2[H], F3[H], Q[H]: reduced = unreduced, mirror negates, invariant along every PD move edge and every braid move (R2, R3, commutation, conjugation, Markov), and ss(K-) <= ss(K+) <= ss(K-)+2 for every positive crossing of every diagram",
         "knots": run.get("knots"),
+        "presentations_with_a_smoothed_crossing": run.get("smoothed_presentations"),
         "i64_overflow_fallbacks_to_bigint": OVERFLOW_FALLBACKS.load(std::sync::atomic::Ordering::Relaxed),
         "move_edges": run.get("move_edges"),
         "crossing_changes": run.get("crossing_changes"),
